@@ -25,6 +25,12 @@ for _pid, _t in [("C01", "edit script accounting (every child exactly once, list
                   ("C04", "monotone, sound, converging bounds (passive and active monitor around every Bounded class)"),
                   ("C02", "total cost == 0 <=> documents equal as data <=> main()'s exit-status expression (AST slice) is False <=> nothing marked; "
                           "plus z3 validity queries `summary of the real levenshtein_distance == textbook DP` and `== 0 <=> equal` per length shape"),
+                  ("C05", "2-safety by self-composition over call histories: the same symbolic documents are refined by the TreeNode.diff loop and by "
+                          "every bounded prefix of public edit operations (on the top-level or a nested edit) followed by that loop, quiet on/off: no "
+                          "exception, equal final cost, equal script"),
+                  ("C07", "no input mutation (structural snapshots before/after diff, edits, get_all_edits) and determinism as 2-safety: the same "
+                          "symbolic documents diffed twice in one run while every set() in graphtage.graphtage iterates in an engine-chosen order "
+                          "(models the hash seed): equal cost and equal ordered script"),
                   ("C08", "2-safety by self-composition: the same symbolic documents are diffed before and after permuting the keys of one mapping "
                           "(generators of the permutation group, engine-chosen site) -- equal cost, equal pairing, permuted copy costs 0; list "
                           "transpositions of unequal elements cost > 0"),
@@ -71,6 +77,17 @@ CHECKS["C11"] = dict(
          "If-DP over the same symbolic characters (reference model, itself cross-checked against brute force each run).",
     note=TB + "Strings longer than the bound and bytes objects are outside the claim.",
     ref="DESIGN.md §3 C11", technique="symbolic execution (z3 proxies) of the real string edit distance against a z3 LCS reference, exhaustive within length bounds")
+
+CHECKS["C14"] = dict(
+    text="The statements of main() that resolve the file types, the dictionary strategy, the BuildOptions and the printer layout "
+         "options are sliced from the AST of graphtage/__main__.py on every run (one contiguous region plus the argparse "
+         "construction, which is executed to obtain the real parser) and run under symx with every boolean flag a symbolic bool "
+         "and every option presence/MIME choice an engine choice point: explicit type of either file is the one resolved, -k == "
+         "--dict-strategy none, -j == -jl -jd, BuildOptions fields follow the flags; alias pairs parse identically on the real "
+         "parser; get_filetype ignores the path when a MIME type is given.",
+    note=TB + "Reduced claim: equality of the text printed by the command and by the library is outside (needs files and stdout). "
+         "The option space is finite; the solver's share is the boolean flags, presence is enumerated by the engine.",
+    ref="DESIGN.md §3 C14", technique="symbolic execution of AST slices of main() (z3 booleans + engine choice points), exhaustive over the option space")
 
 NOT_APPLICABLE = {
     "C12": "every route from leaf text to output and every oracle (loaders) is C code (json.dumps, csv, libyaml, plistlib, "
